@@ -489,10 +489,13 @@ private:
 			self_->reactor_->select(fd,new_event,e);
 			if(!e) {
 				self_->map_[fd].current_event = new_event;
-				if(event == io_events::in)
-					self_->map_[fd].readable = h;
-				else
-					self_->map_[fd].writeable = h;
+				event_handler &slot = (event == io_events::in) ? self_->map_[fd].readable : self_->map_[fd].writeable;
+				if(slot) {
+					// a wait of this kind is pending already: it is replaced, its handler is told so rather than dropped
+					system::error_code canceled(aio_error::canceled,aio_error_cat);
+					self_->dispatch_queue_.push_back(completion_handler(slot,canceled));
+				}
+				slot = h;
 			}
 			else {
 				self_->dispatch_queue_.push_back(completion_handler(h,e));
